@@ -249,7 +249,13 @@ impl Monitor for C10 {
                     acc.violation(format!("C10/hang-blocked-in-a-system-call/{}/{}", build, gen_name), case, detail(json!({"observation": "the child slept in a system call without any CPU progress for 12 s"})));
                 }
                 ChildEnd::Signaled(sig) if *sig == libc::SIGXCPU => {
-                    acc.violation(format!("C10/hang-cpu-limit/{}/{}", build, gen_name), case, detail(json!({"signal": "SIGXCPU"})));
+                    acc.violation(format!("C10/hang-cpu-limit/{}/{}", build, gen_name), case, detail(json!({"signal": "SIGXCPU", "cpu_limit_s": 20})));
+                    // every such witness costs 20 s of CPU: two per shard are enough
+                    acc.count("hangs_at_the_cpu_limit");
+                    if acc.counters.get("hangs_at_the_cpu_limit").copied().unwrap_or(0) >= 2 {
+                        acc.abort_shard = true;
+                        return;
+                    }
                 }
                 ChildEnd::Signaled(sig) if *sig == libc::SIGABRT || *sig == libc::SIGSEGV || *sig == libc::SIGBUS || *sig == libc::SIGILL => {
                     acc.violation(format!("C10/abort-signal-{}/{}/{}", sig, build, gen_name), case, detail(json!({"signal": sig})));
